@@ -1,5 +1,7 @@
 #!/bin/bash
 # tools/seedverify.sh <mutation dir with patch.diff + demo.rs> <crate dir: base|integer|float|rational|macros|.>
+# (env: SV_TARGET, SV_FEATURES, SV_RUSTFLAGS + SV_CARGO_ARGS = build configuration in which the demonstration runs,
+#  e.g. SV_RUSTFLAGS='--cfg force_bits="32"' or SV_CARGO_ARGS=--release; the suite always runs in the default configuration)
 # Confirms independently: patch applies, workspace builds, the existing suite passes with the patch,
 # the demonstration passes without the patch and fails with it. Uses a scratch worktree, removed afterwards.
 set -u
@@ -12,9 +14,9 @@ pkg=$(grep -m1 '^name' $wt/$crate/Cargo.toml | sed 's/.*"\(.*\)".*/\1/')
 mkdir -p $wt/$crate/tests
 cp $dir/demo.rs $wt/$crate/tests/seed_demo.rs
 feat="${SV_FEATURES:-}"; [ "$pkg" = dashu-ratio ] && feat="--features dashu-float $feat"
-( cd $wt && cargo test -p $pkg --test seed_demo $feat >/tmp/sv-demo0-$$.log 2>&1 ); d0=$?
+( cd $wt && RUSTFLAGS="${SV_RUSTFLAGS:-}" cargo test -p $pkg --test seed_demo $feat ${SV_CARGO_ARGS:-} >/tmp/sv-demo0-$$.log 2>&1 ); d0=$?
 if ! git -C $wt apply $dir/patch.diff; then echo "RESULT patch-does-not-apply"; exit 1; fi
-( cd $wt && cargo test -p $pkg --test seed_demo $feat >/tmp/sv-demo1-$$.log 2>&1 ); d1=$?
+( cd $wt && RUSTFLAGS="${SV_RUSTFLAGS:-}" cargo test -p $pkg --test seed_demo $feat ${SV_CARGO_ARGS:-} >/tmp/sv-demo1-$$.log 2>&1 ); d1=$?
 rm $wt/$crate/tests/seed_demo.rs
 ( cd $wt && cargo test --workspace --no-fail-fast >/tmp/sv-suite-$$.log 2>&1 ); s=$?
 pass=$(grep -E "^test result" /tmp/sv-suite-$$.log | awk '{p+=$4; f+=$6} END {print p" passed, "f" failed"}')
